@@ -165,6 +165,13 @@ def catalogue():
         for tag, iset in (("left", "left"), ("right", "right"), ("list", lst), ("perm", perm)):
             add("sys%d_%s" % (idx, tag), "systematic", {"k": k, "n": n, "info": iset if isinstance(iset, str) else list(iset), "info_kind": tag},
                 lambda P=P, iset=iset: E.SystematicLinearBlockCodeEncoder(T(P), information_set=iset))
+    # index lists that are not ascending but whose first and last entries span exactly k positions, or whose set is a contiguous range
+    for idx, (k, m, iset) in enumerate(((4, 3, [0, 2, 1, 3]), (4, 3, [1, 6, 0, 4]), (3, 4, [4, 6, 5]), (5, 2, [6, 3, 4, 5, 2]), (4, 4, [7, 5, 6, 4]))):
+        P = np.array([[rng.getrandbits(1) for _ in range(m)] for _ in range(k)], dtype=np.uint8)
+        add("sysspan%d" % idx, "systematic", {"k": k, "n": k + m, "info": list(iset), "info_kind": "span"},
+            lambda P=P, iset=iset: E.SystematicLinearBlockCodeEncoder(T(P), information_set=list(iset)))
+    add("ham3_span", "hamming", {"mu": 3, "extended": False, "info": [1, 6, 0, 4], "info_kind": "span"}, lambda: E.HammingCodeEncoder(mu=3, information_set=[1, 6, 0, 4]))
+    add("cyc7_g11_span", "cyclic", {"n": 7, "g": 11, "info": [2, 0, 1, 3], "info_kind": "span"}, lambda: E.CyclicCodeEncoder(code_length=7, generator_polynomial=11, information_set=[2, 0, 1, 3]))
     for mu in (2, 3, 4, 5, 6):
         for ext in (False, True):
             for iset in ("left", "right"):
